@@ -139,16 +139,17 @@ func (s Step) String() string {
 	return fmt.Sprintf("T%d.%s#%d", s.Tid, s.Kind, s.Obj)
 }
 
-type point struct {
-	n        int  // number of alternatives
-	costAlt  int  // cost of taking a non-zero alternative (1 if it is a preemption/deviation, 0 if free)
-	costSoFar int
+// ChoicePoint is one choice point of an execution.
+type ChoicePoint struct {
+	N         int // number of alternatives
+	CostAlt   int // cost of taking a non-zero alternative (1 if it is a preemption/deviation, 0 if free)
+	CostSoFar int
 }
 
 // Exec is one complete execution.
 type Exec struct {
 	Choices  []int
-	points   []point
+	Points   []ChoicePoint
 	Trace    []Step
 	Deadlock bool
 	Blocked  []string // description of blocked threads on deadlock
@@ -195,8 +196,12 @@ type Explorer struct {
 	Setup func() []func()
 	// Check is called after each complete execution (scheduler inactive); return false to flag it.
 	Check func(x *Exec) bool
-	res   Result
-	stop  bool
+	// Remote, if set, replaces run+Check: it executes exactly the schedule "prefix, then default choices" somewhere
+	// else (a fresh process, so that process-global state of the code under test cannot survive from one execution to
+	// the next) and returns the execution and the verdict of its Check; nil means it could not be run.
+	Remote func(prefix []int) (*Exec, bool)
+	res    Result
+	stop   bool
 }
 
 // run executes one schedule: replays prefix, then default choices.
@@ -318,7 +323,7 @@ func (e *Explorer) run(prefix []int) *Exec {
 				c = 0
 			}
 		}
-		x.points = append(x.points, point{n: nAlt, costAlt: costAlt, costSoFar: cost})
+		x.Points = append(x.Points, ChoicePoint{N: nAlt, CostAlt: costAlt, CostSoFar: cost})
 		x.Choices = append(x.Choices, c)
 		pi++
 		if c != 0 {
@@ -527,27 +532,40 @@ func (e *Explorer) explore(prefix []int) {
 		e.stop = true
 		return
 	}
-	x := e.run(prefix)
-	e.res.Execs++
-	if e.res.Diverged != "" {
-		e.stop = true
-		return
+	var x *Exec
+	var ok bool
+	if e.Remote != nil {
+		x, ok = e.Remote(prefix)
+		if x == nil {
+			e.res.Capped = true
+			e.stop = true
+			return
+		}
+		e.res.Execs++
+		e.res.Steps += int64(len(x.Trace))
+	} else {
+		x = e.run(prefix)
+		e.res.Execs++
+		if e.res.Diverged != "" {
+			e.stop = true
+			return
+		}
+		ok = e.Check(x)
 	}
 	if x.Cost > e.res.MaxCost {
 		e.res.MaxCost = x.Cost
 	}
-	ok := e.Check(x)
 	if !ok && e.Opt.StopAtFirst {
 		e.stop = true
 		return
 	}
-	for i := len(prefix); i < len(x.points); i++ {
-		p := x.points[i]
+	for i := len(prefix); i < len(x.Points); i++ {
+		p := x.Points[i]
 		e.res.ChoicePts++
-		if e.Opt.Bound >= 0 && p.costSoFar+p.costAlt > e.Opt.Bound {
+		if e.Opt.Bound >= 0 && p.CostSoFar+p.CostAlt > e.Opt.Bound {
 			continue
 		}
-		for alt := 1; alt < p.n; alt++ {
+		for alt := 1; alt < p.N; alt++ {
 			np := make([]int, i+1)
 			copy(np, x.Choices[:i])
 			np[i] = alt
